@@ -1,5 +1,6 @@
 import errno
 import io
+import os
 import sys
 from abc import ABC, abstractmethod
 from enum import Enum
@@ -51,6 +52,24 @@ def raise_open_files_limit(n):
     soft, hard = resource.getrlimit(resource.RLIMIT_NOFILE)
     soft = min(soft + n, hard)
     resource.setrlimit(resource.RLIMIT_NOFILE, (soft, hard))
+
+
+def detect_format_from_path(path) -> Optional[str]:
+    """
+    Return "fasta" or "fastq" if the file name (without a compression suffix)
+    has an extension that determines the format, and None otherwise.
+    """
+    name = os.fspath(path).lower()
+    for ext in (".gz", ".xz", ".bz2", ".zst"):
+        if name.endswith(ext):
+            name = name[: -len(ext)]
+            break
+    name, ext = os.path.splitext(name)
+    if ext in (".fasta", ".fa", ".fna", ".csfasta", ".csfa"):
+        return "fasta"
+    elif ext in (".fastq", ".fq") or (ext == ".txt" and name.endswith("_sequence")):
+        return "fastq"
+    return None
 
 
 class FileOpener:
@@ -244,6 +263,15 @@ class OutputFiles:
             paths = ("-",)
         for path in paths:
             assert path is not None
+        if "fileformat" not in kwargs:
+            # The format is determined by the file name, independently of how the
+            # file is written (compressed or not, directly or via a proxy when
+            # running on multiple cores). The input format is the fallback.
+            fileformat = detect_format_from_path(paths[0])
+            if fileformat == "fastq" and not self._qualities:
+                fileformat = "fasta"
+            if fileformat is not None:
+                kwargs["fileformat"] = fileformat
         binary_files = []
         for path in paths:
             binary_file = self._file_opener.xopen(path, "wb")
